@@ -2,6 +2,7 @@ package props
 
 import (
 	"bytes"
+	"encoding/hex"
 	"fmt"
 	"math/big"
 	"strings"
@@ -134,7 +135,11 @@ func newC03World(rt *rapid.T) *c03World {
 			if b == 2 && rapid.IntRange(0, 5).Draw(rt, "leafForBridge3") == 0 {
 				lb = 3 // the proposer of bridge 2 commits a leaf that names bridge 3
 			}
-			ts = append(ts, wd{Bridge: lb, Seq: seq[b], From: from, To: w.users[rapid.IntRange(0, 3).Draw(rt, "to")].Str,
+			to := w.users[rapid.IntRange(0, 3).Draw(rt, "to")].Str
+			if rapid.IntRange(0, 5).Draw(rt, "selfWithdrawal") == 0 {
+				from = to // the L2 sender withdraws to the same address string on L1
+			}
+			ts = append(ts, wd{Bridge: lb, Seq: seq[b], From: from, To: to,
 				Denom: rapid.SampledFrom([]string{"uinit", "uusdc"}).Draw(rt, "denom"), Amount: uint64(rapid.IntRange(1, 1000).Draw(rt, "amt"))})
 			seq[b]++
 		}
@@ -201,7 +206,7 @@ var c03Rich, _ = math.NewIntFromString("1180591620717411303424") // 2^70
 var c03Kinds = []string{"none", "flip-storage", "flip-blockhash", "flip-proof", "version", "seq", "amount", "amount+2^64", "bridge", "index", "swap-from-to",
 	"other-storage", "other-blockhash", "drop-last", "drop-first", "dup-item", "swap-items", "extend", "empty-proof", "cut-to-inner", "other-pos-proof",
 	"from-case", "from-nul", "move-byte", "denom", "to-other-user", "dead-output", "inner-as-root", "to-uppercase",
-	"lengthen-blockhash", "lengthen-storage", "shorten-blockhash", "lengthen-version", "extend-many", "denom-l2-twin"}
+	"lengthen-blockhash", "lengthen-storage", "shorten-blockhash", "lengthen-version", "extend-many", "denom-l2-twin", "hex-item", "blank-from", "blank-to"}
 
 // perturb applies one perturbation kind in place; returns false if it does not apply.
 func (w *c03World) perturb(rt *rapid.T, kind string, m *ophosttypes.MsgFinalizeTokenWithdrawal, o *mOutput, pos int) bool {
@@ -327,6 +332,9 @@ func (w *c03World) perturb(rt *rapid.T, kind string, m *ophosttypes.MsgFinalizeT
 	case "from-nul":
 		m.From += "\x00"
 	case "move-byte":
+		if len(m.From) == 0 {
+			return false
+		}
 		m.To = m.From[len(m.From)-1:] + m.To
 		m.From = m.From[:len(m.From)-1]
 	case "denom":
@@ -335,6 +343,17 @@ func (w *c03World) perturb(rt *rapid.T, kind string, m *ophosttypes.MsgFinalizeT
 		} else {
 			m.Amount.Denom = "uinit"
 		}
+	case "hex-item":
+		// one proof element replaced by its 64-character hexadecimal text
+		if len(m.WithdrawalProofs) == 0 {
+			return false
+		}
+		i := rapid.IntRange(0, len(m.WithdrawalProofs)-1).Draw(rt, "hexitem")
+		m.WithdrawalProofs[i] = []byte(hex.EncodeToString(m.WithdrawalProofs[i]))
+	case "blank-from":
+		m.From = ""
+	case "blank-to":
+		m.To = ""
 	case "denom-l2-twin":
 		// the name the same token has on L2 (the bridge has a registered token pair for it)
 		m.Amount.Denom = ref.L2Denom(m.BridgeId, m.Amount.Denom)
